@@ -66,6 +66,37 @@ def run(ck):
                         out_.append(syn)
         return out_
 
+    def rejecting_helper(h_):
+        """(core parameter index, exception parameter index) when the free helper h_ stores its exception parameter into the core's
+        exc, stores State::Rejected into its state, and only then walks the core's continuations with reject -- else None"""
+        if h_.cls or not h_.blocks:
+            return None
+        pn = [p_["name"] for p_ in h_.params]
+        ex = [e for e in h_.events("call") if e.get("op") == "=" and _field(e.get("recv"), "Core::exc")]
+        st = [e for e in h_.events("call") if e.get("op") == "=" and _field(e.get("recv"), "Core::state") and e["args"][0].get("const") == "e:Pistache::Async::State::Rejected"]
+        w = [e for e in h_.events("call") if e.get("callee") in (REQ_RESOLVE, REQ_REJECT)]
+        if not ex or not st or not w or any(e.get("callee") == REQ_RESOLVE for e in w):
+            return None
+        d_ = cfg.dominators(h_)
+        if not all(cfg.ev_dominates(d_, ex[0], x) and cfg.ev_dominates(d_, st[0], x) for x in w):
+            return None
+        core_root = (ex[0]["recv"].get("b") or "").split("->")[0]
+        if core_root not in pn or not all((x["args"][0].get("t") or "").split("->")[0] == core_root for x in w) or (st[0]["recv"].get("b") or "").split("->")[0] != core_root:
+            return None
+        srcs = [i for i, n_ in enumerate(pn) if n_ != core_root and any(n_ in (a_.get("t") or "") or (a_.get("moved") or {}).get("v") == n_ for a_ in ex[0].get("args", []))]
+        return (pn.index(core_root), srcs[0]) if srcs else None
+
+    def rejecting_calls(evs):
+        """[(call event, core argument, exception argument)] for calls of rejecting helpers among evs"""
+        out_ = []
+        for e in evs:
+            if e["k"] == "call" and (e.get("callee") or "").startswith(P) and not e.get("virt"):
+                for h_ in prog.resolve_call(e):
+                    rh = rejecting_helper(h_)
+                    if rh and len(e.get("args", [])) > max(rh):
+                        out_.append((e, e["args"][rh[0]], e["args"][rh[1]]))
+        return out_
+
     ck.rule("C11-R1", "B dominance + D who-may-call",
             "Continuable<T>::doResolve/doReject are invoked only from Continuable<T>::resolve/reject, where the call is dominated by the "
             "resolveCount_/rejectCount_ >= 1 bail-out and by the increment of that counter", 8)
@@ -118,14 +149,19 @@ def run(ck):
             if not okc:
                 continue
             dom = cfg.dominators(f)
-            guards = [b for b in f.blocks.values() if b.term and b.term.get("k") == "if" and _field(b.term.get("lhs"), "Continuable::" + cnt)
-                      and ((b.term.get("cmp") == ">=" and b.term.get("rconst") == 1) or (b.term.get("cmp") == ">" and b.term.get("rconst") == 0)
-                           or (b.term.get("cmp") == "!=" and b.term.get("rconst") == 0))]
+            # the call is reached only on an edge that knows the counter is still zero: `>= 1` / `> 0` / `!= 0` not taken, or `< 1` /
+            # `== 0` / `<= 0` taken
             g_ok = False
-            for b in guards:
-                if b.id in dom.get(e.block, ()) and b.id != e.block:
-                    arm = cfg.events_from_block(f, b.succs[0])
-                    if not any(x is e for x in arm):
+            for b in f.blocks.values():
+                t_ = b.term
+                if not t_ or len(b.succs) != 2 or not _field(t_.get("lhs"), "Continuable::" + cnt) or not isinstance(t_.get("rconst"), int) or isinstance(t_.get("rconst"), bool):
+                    continue
+                for k_ in (0, 1):
+                    r_ = lib.rel_on_edge(t_, k_)
+                    if r_ is None or b.succs[k_] is None:
+                        continue
+                    zero = (r_[1] == "<" and t_["rconst"] == 1) or (r_[1] == "==" and t_["rconst"] == 0) or (r_[1] == "<=" and t_["rconst"] == 0)
+                    if zero and cfg.edge_dominates(f, b.id, k_, e):
                         g_ok = True
             incs = [x for x in f.events("incdec") if _field(x.get("operand"), "Continuable::" + cnt) and x.get("op") == "++"]
             i_ok = len(incs) == 1 and cfg.ev_dominates(dom, incs[0], e)
@@ -198,6 +234,13 @@ def run(ck):
             dom = cfg.dominators(f, hb.id)
             order_ok = bool(stores) and bool(states) and bool(w) and all(cfg.ev_dominates(dom, stores[0], x) and cfg.ev_dominates(dom, states[0], x) for x in w)
             same_core = bool(stores) and all((x["args"][0].get("t") == stores[0]["recv"].get("b")) for x in w)
+            if not (order_ok and same_core):
+                # the same three steps delegated to one helper that stores the exception and Rejected before it walks with reject
+                rc = [(c_, core_, exc_) for c_, core_, exc_ in rejecting_calls(evs)
+                      if ((exc_.get("f") or "").endswith("InternalRethrow::exc") and exc_.get("b") == var) or ("%s.exc" % var) in (exc_.get("t") or "")]
+                if rc and len(w) == len(rc):
+                    order_ok = same_core = True
+                    stores = states = [rc[0][0]]
             ck.ob("C11-R3", "rethrow-handler", not badw and order_ok and same_core, "%s:%s" % (f.file, hb.label.get("l")), f,
                   "stores %s.exc and Rejected into the derived core before walking it with reject only" % var if (not badw and order_ok and same_core)
                   else "handler shape: resolve-calls=%d exc-store=%d state-store=%d order=%s same-core=%s" % (len(badw), len(stores), len(states), order_ok, same_core))
@@ -214,6 +257,10 @@ def run(ck):
                     badw = [e for e in w if e.get("callee") == REQ_RESOLVE]
                     st = [e for e in lf.events("call") if e.get("op") == "=" and _field(e.get("recv"), "Core::state") and e["args"][0].get("const") == "e:Pistache::Async::State::Rejected"]
                     ex = [e for e in lf.events("call") if e.get("op") == "=" and _field(e.get("recv"), "Core::exc")]
+                    if w and not (st and ex):
+                        rc = rejecting_calls(lf.events())
+                        if rc and len(rc) == len(w):
+                            st = ex = [rc[0][0]]
                     ck.ob("C11-R3", "finishResolve-rejection-lambda@%s" % lf.line, not badw and bool(w) and bool(st) and bool(ex), lf.loc, lf,
                           "chained calls=%d (resolve=%d) state-store=%d exc-store=%d" % (len(w), len(badw), len(st), len(ex)))
         if not thencalls:
@@ -246,42 +293,65 @@ def run(ck):
         for lf in prog.lambdas_in(f):
             policies.append((lf, "all", "WhenAllRange::reject-lambda"))
     ck.require(len(policies) >= 7, "policy callbacks: found %d" % len(policies))
-    for f, kind, name in policies:
-        settles = [e for e in f.calls(lambda e: e.base_callee() in (A + "Resolver::operator()", A + "Rejection::operator()")
-                                      and (_field(e.get("recv"), "Data::resolve") or _field(e.get("recv"), "Data::reject")))]
-        if not settles:
+    def is_settle(e):
+        return e["k"] == "call" and e.base_callee() in (A + "Resolver::operator()", A + "Rejection::operator()") and \
+            (_field(e.get("recv"), "Data::resolve") or _field(e.get("recv"), "Data::reject"))
+    DATA_MTX = ("Pistache::Async::Impl::All::Data::mtx", "Pistache::Async::Impl::Any::Data::mtx", "Pistache::Async::Impl::WhenAllRange::Data::mtx")
+    for f0, kind, name in policies:
+        # the settle may be written in the callback itself or in a private static helper of the policy that the callback calls with
+        # the lock held: lock, flag bail-out and flag store are then checked where the helper is called (ctx), the counter test where
+        # the settle is written (sf)
+        found = [(f0, e, f0, e, (e["recv"].get("b"))) for e in f0.events("call") if is_settle(e)]
+        for c_ in f0.events("call"):
+            for h_ in prog.resolve_call(c_):
+                if h_.blocks and h_.id != f0.id and h_.cls and h_.cls == f0.cls or (h_.blocks and h_.id != f0.id and (h_.base.startswith(A + "Impl::")) and not h_.is_lambda and [x for x in h_.events("call") if is_settle(x)]):
+                    pn = [p_["name"] for p_ in h_.params]
+                    for e in [x for x in h_.events("call") if is_settle(x)]:
+                        root_ = (e["recv"].get("b") or "").split("->")[0]
+                        if root_ in pn and len(c_.get("args", [])) > pn.index(root_):
+                            found.append((f0, c_, h_, e, c_["args"][pn.index(root_)].get("t")))
+        if not found:
             continue
-        ls = lib.locksets(f)
-        dom = cfg.dominators(f)
         flagname = "done" if kind == "any" else "rejected"
-        for e in settles:
-            is_rej = e.base_callee().endswith("Rejection::operator()")
-            base = e["recv"].get("b")
+        def check_at(fn_, sink, base_, is_rej_, extra_fn=None, extra_ev=None):
+            ls_ = lib.locksets(fn_)
+            dom_ = cfg.dominators(fn_)
             # (a) lock
-            a_ok = any(lib.holds(ls.get((e.block, e.idx)), m, base) for m in
-                       ("Pistache::Async::Impl::All::Data::mtx", "Pistache::Async::Impl::Any::Data::mtx", "Pistache::Async::Impl::WhenAllRange::Data::mtx"))
+            a_ = any(lib.holds(ls_.get((sink.block, sink.idx)), m, base_) for m in DATA_MTX)
             # (b) bail-out on the terminal flag dominates
-            b_ok = False
-            for b in f.blocks.values():
+            b_ = False
+            for b in fn_.blocks.values():
                 t = b.term
-                if t and t.get("k") == "if" and not t.get("cmp") and _field(t.get("core"), "Data::" + flagname) and (t.get("core") or {}).get("b") == base:
-                    if b.id in dom.get(e.block, ()) and b.id != e.block:
+                if t and t.get("k") == "if" and not t.get("cmp") and _field(t.get("core"), "Data::" + flagname) and (t.get("core") or {}).get("b") == base_:
+                    if b.id in dom_.get(sink.block, ()) and b.id != sink.block:
                         bail = b.succs[1] if t.get("neg") else b.succs[0]
-                        if not any(x is e for x in cfg.events_from_block(f, bail)):
-                            b_ok = True
+                        if not any(x is sink for x in cfg.events_from_block(fn_, bail)):
+                            b_ = True
             # (c) flag set on the same path
-            c_ok = True
-            if is_rej or kind == "any":
+            c_ = True
+            if is_rej_ or kind == "any":
                 def sets_flag(ev):
                     return ev["k"] == "assign" and _field(ev.get("lhs"), "Data::" + flagname) and ev.get("const") is True
-                # every entry->exit path through e passes a flag assignment
-                before = [x for x in f.events("assign") if sets_flag(x) and cfg.ev_dominates(dom, x, e)]
+                before = [x for x in fn_.events("assign") if sets_flag(x) and cfg.ev_dominates(dom_, x, sink)]
+                if extra_fn is not None:
+                    before += [x for x in extra_fn.events("assign") if sets_flag(x) and cfg.ev_dominates(cfg.dominators(extra_fn), x, extra_ev)]
                 if not before:
-                    after = cfg.exits_without(f, sets_flag, start_block=e.block, start_idx=e.idx + 1)
-                    c_ok = not [x for x in after if x.kind != "throw"]
+                    after = cfg.exits_without(fn_, sets_flag, start_block=sink.block, start_idx=sink.idx + 1)
+                    c_ = not [x for x in after if x.kind != "throw"]
+                    if not c_ and extra_fn is not None:
+                        after = cfg.exits_without(extra_fn, sets_flag, start_block=extra_ev.block, start_idx=extra_ev.idx + 1)
+                        c_ = not [x for x in after if x.kind != "throw"]
+            return a_, b_, c_
+        for f, ce, sf, e, base in found:
+            is_rej = e.base_callee().endswith("Rejection::operator()")
+            # the discipline holds where the settle is written (a helper that locks and tests itself) or where that helper is called
+            a_ok, b_ok, c_ok = check_at(sf, e, e["recv"].get("b"), is_rej)
+            if not (a_ok and b_ok and c_ok) and sf is not f:
+                a_ok, b_ok, c_ok = check_at(f, ce, base, is_rej, sf, e)
             ok = a_ok and b_ok and c_ok
             ck.ob("C11-R4", "%s:%s" % (name, "reject" if is_rej else "resolve"), ok, e.loc, f,
                   "under data->mtx=%s; bail-out on '%s' dominates=%s; flag set on the path=%s" % (a_ok, flagname, b_ok, c_ok))
+            f, dom = sf, cfg.dominators(sf)
             # R5
             if kind == "all" and not is_rej:
                 done_edges = lib.relation_edges(f, lambda r_: _field(r_, "Data::resolved"), lambda r_: _field(r_, "Data::total"), ("==",))
